@@ -443,6 +443,10 @@ class BooleanExpression(FilterExpression):
                     f"({expr})" if parent_precedence >= PRECEDENCE_LOGICAL_OR else expr
                 )
 
+            # Comparison and membership operators bind less tightly than `!`.
+            expr = str(expression)
+            return f"({expr})" if parent_precedence >= PRECEDENCE_PREFIX else expr
+
         if isinstance(expression, PrefixExpression):
             operand = self._canonical_string(expression.right, PRECEDENCE_PREFIX)
             expr = f"!{operand}"
